@@ -40,6 +40,14 @@ Check ACC_C02_order : forall (S : QBase F64) (x y : Qt S),
   Rabs (magnitude S x) * (1 + u64) < huge -> Rabs (magnitude S y) * (1 + u64) < huge ->
   exists c, HasRefUnit_partial_cmp S x y = Ok (Some c) /\
     (magnitude S x < magnitude S y -> c <> Gt) /\ (magnitude S y < magnitude S x -> c <> Lt) /\ (magnitude S x = magnitude S y -> c = Eq).
+Check ACC_C02_separated : forall (S : QBase F64) (x y : Qt S),
+  q_unit S x <> q_unit S y ->
+  is_finite 53 1024 (q_amount S x) = true -> is_finite 53 1024 (q_amount S y) = true ->
+  is_finite 53 1024 (u_scale S (q_unit S x)) = true -> is_finite 53 1024 (u_scale S (q_unit S y)) = true ->
+  normal (magnitude S x) -> normal (magnitude S y) ->
+  exists c, HasRefUnit_partial_cmp S x y = Ok (Some c) /\
+    (magnitude S x + u64 * (Rabs (magnitude S x) + Rabs (magnitude S y)) < magnitude S y -> c = Lt) /\
+    (magnitude S y + u64 * (Rabs (magnitude S x) + Rabs (magnitude S y)) < magnitude S x -> c = Gt).
 Check ACC_C03_add : forall (S : QBase F64), QLaws S -> forall (x y : Qt S),
   q_unit S y <> q_unit S x -> In (q_unit S x) (u_iter S) ->
   is_finite 53 1024 (q_amount S x) = true -> is_finite 53 1024 (q_amount S y) = true ->
